@@ -391,14 +391,14 @@ def c19(ck):
 
 @check("C17")
 def c17(ck):
-    ck.rule = ("program texts rendered by the position model: 0..MaxPre blocks out of 6 kinds (comment, blank, 1-line form, "
-               "multi-line form, multi-line raw string, trailing comment) before the faulty block, 25 wrappers (direct, "
-               "let, if, do, vector, map, call argument, cond, ->, and, or, try/finally, macro operand, body of a function "
-               "or closure defined in an earlier form and called directly / via map / via apply, with any block between "
-               "definition and call) x 6 faults x optional following form; model computes topBegin/topEnd/faultLine by "
-               "line arithmetic; real error position (form by form and as one do) must name the module, lie within the "
-               "top-level form and cover the fault line; errors without a position are counted, not judged")
-    consts = {"MaxPre": 1 if ck.quick else 3}
+    ck.rule = ("program texts rendered by the position model: 0..MaxPre (quick 1, thorough 2) blocks out of 7 kinds (comment, blank, 1-line form, "
+               "multi-line form, multi-line raw string, trailing comment, quoted data) before the faulty block, 33 wrappers (direct, "
+               "let, if, do, vector, map, call argument, cond, ->, and, or, try/finally, macro operand, rest-only macros, body of a function "
+               "or closure defined in an earlier form and called directly / via map / apply / swap! / update / update-in, with any block between "
+               "definition and call) x 18 faults x optional following form; model computes topBegin/topEnd/faultLine by "
+               "line arithmetic; real error position (form by form, as one do, under a $MODULE header line, through load-file) must "
+               "name the module, lie within the top-level form and cover the fault line; errors without a position are counted, not judged")
+    consts = {"MaxPre": 1 if ck.quick else 2}
     gen_and_replay(ck, "GenC17", consts, timeout=1500)
     ck.exhaustive = True
     ck.extra["bounds"] = consts
